@@ -1267,11 +1267,11 @@ def _signatures(trees: dict[str, ast.Module]) -> dict[str, list[str] | None]:
                 if not isinstance(fn, (ast.FunctionDef, ast.AsyncFunctionDef)):
                     continue
                 a = fn.args
+                deco = {d.id for d in fn.decorator_list if isinstance(d, ast.Name)}
                 if a.vararg or a.kwarg or a.posonlyargs:
                     params = None
                 else:
                     names = [x.arg for x in a.args]
-                    deco = {d.id for d in fn.decorator_list if isinstance(d, ast.Name)}
                     if cls is not None and "staticmethod" not in deco and names:
                         names = names[1:]
                     params = names + ["*"] + [x.arg for x in a.kwonlyargs] if a.kwonlyargs else names
@@ -1279,6 +1279,14 @@ def _signatures(trees: dict[str, ast.Module]) -> dict[str, list[str] | None]:
                     sigs[fn.name] = None
                 elif fn.name not in sigs:
                     sigs[fn.name] = params
+                if cls is not None:
+                    # `Class.method(...)` names its callee even when the bare method name is ambiguous
+                    q = f"{cls.name}.{fn.name}"
+                    if params is not None and "classmethod" not in deco and "staticmethod" not in deco:
+                        qparams = None  # reached through the class, a plain method still wants its instance
+                    else:
+                        qparams = params
+                    sigs[q] = qparams if q not in sigs or sigs[q] == qparams else None
     return sigs
 
 
@@ -1294,6 +1302,9 @@ def _call_params(call: ast.Call, sigs) -> tuple[str, list[str], dict[str, ast.ex
     if not name or name in _FOREIGN or name.startswith("__"):
         return None
     params = sigs.get(name)
+    if not params and isinstance(f, ast.Attribute) and isinstance(f.value, ast.Name) and sigs.get(f"{f.value.id}.{name}"):
+        name = f"{f.value.id}.{name}"
+        params = sigs[name]
     if not params or any(isinstance(a, ast.Starred) for a in call.args) or any(k.arg is None for k in call.keywords):
         return None
     pos_params = params[: params.index("*")] if "*" in params else params
